@@ -244,6 +244,9 @@ class OMPLoopTrans(ParallelLoopTrans):
                                    Config.get().reproducible_reductions)
 
         if self._reprod:
+            # Only add the symbols if the transformation is going to be
+            # applied (a refused transformation must not change the tree).
+            self.validate(node, options=options)
             # When reprod is True, the variables th_idx and nthreads are
             # expected to be declared in the scope.
             root = node.ancestor(Routine)
